@@ -429,12 +429,30 @@ func c08r2(p *Program, r *Report) {
 				if sig.Params().At(pi) != ov {
 					continue
 				}
-				wid, isWid := ast.Unparen(c.Args[0]).(*ast.Ident)
-				if !isWid {
-					fresh, why = false, "the value to compare with is a parameter but the word is not"
-					break
+				// the word the callee works on, as the caller names it: a pointer parameter bound to a stream word,
+				// or a word the callee addresses itself through an index parameter
+				var sitesW []argSite
+				widx := -1
+				byIndexParam := false
+				if wid, isWid := ast.Unparen(c.Args[0]).(*ast.Ident); isWid {
+					widx, sitesW = wordParamSites(p, fi, wid)
 				}
-				widx, sitesW := wordParamSites(p, fi, wid)
+				if len(sitesW) == 0 {
+					if ix, isW := wordKey(p, info, fi, c.Args[0]); isW {
+						if iid, isId := ast.Unparen(stripAllConv(info, ix)).(*ast.Ident); isId {
+							if k, stable := p.stableParams(fi)[info.Uses[iid]]; stable && k >= 0 && !p.usedAsValue(fi) {
+								widx, byIndexParam = k, true
+								for _, caller := range streamsPkgFuncs(p) {
+									for _, cc := range callsIn(caller.Decl.Body) {
+										if fn := calleeOf(caller.Pkg.TypesInfo, cc); fn != nil && p.FuncOf(fn) == fi && k < len(cc.Args) && caller != fi {
+											sitesW = append(sitesW, argSite{caller, cc, cc.Args[k]})
+										}
+									}
+								}
+							}
+						}
+					}
+				}
 				if len(sitesW) == 0 {
 					fresh, why = false, "the value to compare with is a parameter but the word is not one bound to a stream word by every caller"
 					break
@@ -442,7 +460,12 @@ func c08r2(p *Program, r *Report) {
 				for _, site := range sitesW {
 					cinfo := site.Fn.Pkg.TypesInfo
 					nd++
-					wix, _ := wordKey(p, cinfo, site.Fn, site.Call.Args[widx])
+					var wix ast.Expr
+					if byIndexParam {
+						wix = site.Call.Args[widx]
+					} else {
+						wix, _ = wordKey(p, cinfo, site.Fn, site.Call.Args[widx])
+					}
 					aid, isId := ast.Unparen(site.Call.Args[pi]).(*ast.Ident)
 					if !isId {
 						fresh, why = false, "caller passes "+exprStr(site.Call.Args[pi])
